@@ -1,16 +1,255 @@
+// c07corr: runs the real sarama ConsumerGroup against a scripted coordinator (MockBroker + shim) and
+// writes script, schedule choices and observation as Coq cases for SV.C07.Corr, plus the verdict of the
+// direct property monitor per case.
 package main
 
 import (
 	"encoding/json"
 	"flag"
 	"fmt"
+	"math/rand"
 	"os"
+	"sort"
+	"strings"
+	"sync"
+
+	cf "verifharness/internal/coqfmt"
 )
+
+func coqJV(v jv) string {
+	switch v.K {
+	case "ok":
+		return cf.App("JOk", cf.Z(v.M), cf.Z(v.G), cf.Bool(v.Leader))
+	case "unknown":
+		return "JUnknownMember"
+	case "illegal":
+		return "JIllegalGen"
+	case "notcoord":
+		return "JNotCoord"
+	case "rebalance":
+		return "JRebalance"
+	case "fatal":
+		return "JFatal"
+	}
+	return "JDrop"
+}
+func coqSV(v sv, order []int64) string {
+	switch v.K {
+	case "ok":
+		return cf.App("SOk", cf.ZList(orderPlan(v.Plan, order)))
+	case "unknown":
+		return "SUnknownMember"
+	case "illegal":
+		return "SIllegalGen"
+	case "notcoord":
+		return "SNotCoord"
+	case "rebalance":
+		return "SRebalance"
+	case "fatal":
+		return "SFatal"
+	}
+	return "SDrop"
+}
+func coqHV(s string) string {
+	return map[string]string{"ok": "HOk", "rebalance": "HRebalance", "unknown": "HUnknownMember", "illegal": "HIllegalGen", "fatal": "HFatal", "drop": "HDrop"}[s]
+}
+func coqLV(s string) string {
+	return map[string]string{"": "LOk", "ok": "LOk", "err": "LErr", "drop": "LDrop"}[s]
+}
+func coqTrig(s string) string {
+	return map[string]string{"none": "TNone", "ctx-before": "TCtxBefore", "ctx-setup": "TCtxSetup", "ctx-steady": "TCtxSteady",
+		"close-before": "TCloseBefore", "close-join": "TCloseJoin", "close-setup": "TCloseSetup", "close-steady": "TCloseSteady",
+		"hb-first": "THbFirst", "hb-steady": "THbSteady", "part-steady": "TPartSteady"}[s]
+}
+func coqBools(b []bool) string {
+	var it []string
+	for _, x := range b {
+		it = append(it, cf.Bool(x))
+	}
+	return cf.List(it)
+}
+
+// the map iteration order of the claims is not fixed by the property: the plan is given to the model in the
+// order in which the implementation fetched the offsets (then the rest, ascending)
+func orderPlan(plan, order []int64) []int64 {
+	var out []int64
+	for _, p := range order {
+		if has(plan, p) && !has(out, p) {
+			out = append(out, p)
+		}
+	}
+	rest := append([]int64(nil), plan...)
+	sort.Slice(rest, func(i, j int) bool { return rest[i] < rest[j] })
+	for _, p := range rest {
+		if !has(out, p) {
+			out = append(out, p)
+		}
+	}
+	return out
+}
+
+func coqBeh(b behSpec) string {
+	q := "None"
+	if b.Quota >= 0 {
+		q = cf.Some(cf.Nat(b.Quota))
+	}
+	return fmt.Sprintf("{| h_quota := %s; h_mark := %s |}", q, cf.Nat(b.Mark))
+}
+
+func coqMainEv(x ev, order []int64) (string, bool) {
+	switch x.K {
+	case "find":
+		return "(EvReq RFindCoord 0 0)", true
+	case "join":
+		return fmt.Sprintf("(EvReq RJoin %s 0)", cf.Z(x.M)), true
+	case "sync":
+		return fmt.Sprintf("(EvReq (RSync %s) %s %s)", cf.Bool(x.Flag), cf.Z(x.M), cf.Z(x.G)), true
+	case "fetchoff":
+		return fmt.Sprintf("(EvReq (RFetch %s) 0 0)", cf.Z(x.P)), true
+	case "commit":
+		bs := append([][2]int64(nil), x.B...)
+		pos := func(p int64) int {
+			for i, q := range order {
+				if q == p {
+					return i
+				}
+			}
+			return 1000 + int(p)
+		}
+		sort.SliceStable(bs, func(i, j int) bool { return pos(bs[i][0]) < pos(bs[j][0]) })
+		var it []string
+		for _, b := range bs {
+			it = append(it, fmt.Sprintf("(%s, %s)", cf.Z(b[0]), cf.Z(b[1])))
+		}
+		return fmt.Sprintf("(EvReq (RCommit %s) %s %s)", cf.List(it), cf.Z(x.M), cf.Z(x.G)), true
+	case "leave":
+		return fmt.Sprintf("(EvReq RLeave %s 0)", cf.Z(x.M)), true
+	case "setup":
+		return "EvSetup", true
+	case "cleanup":
+		return "EvCleanup", true
+	case "return":
+		return "(EvReturn " + x.V + ")", true
+	}
+	return "", false
+}
+
+func coqCase(cs caseSpec, o obs) string {
+	initial := int64(-1)
+	if cs.InitialOldest {
+		initial = -2
+	}
+	var store, lg, calls []string
+	for _, p := range cs.Parts {
+		if p.Stored >= 0 {
+			store = append(store, fmt.Sprintf("(%s, %s)", cf.Z(p.id()), cf.Z(p.Stored)))
+		}
+		lg = append(lg, fmt.Sprintf("(%s, (%s, %s))", cf.Z(p.id()), cf.Z(p.Oldest), cf.Z(p.Newest)))
+	}
+	for ci, call := range cs.Calls {
+		if ci >= len(o.Calls) {
+			break
+		}
+		co := o.Calls[ci]
+		var order, started []int64
+		consumed := map[int64]int{}
+		claims := map[int64][]string{}
+		var main, hbids, joins, syncs, hbs, beh, cons, clm []string
+		seenHb := map[[2]int64]bool{}
+		for _, x := range o.Log {
+			if x.Call != ci {
+				continue
+			}
+			if x.K == "fetchoff" && !has(order, x.P) {
+				order = append(order, x.P)
+			}
+		}
+		for _, x := range o.Log {
+			if x.Call != ci {
+				continue
+			}
+			if s, ok := coqMainEv(x, order); ok {
+				// Close's LeaveGroup can only start once Consume has released the group's lock, i.e. has returned;
+				// the harness logs "return" a little later: put the two in their causal order
+				if x.K == "return" && call.Trigger != "close-before" && len(main) > 0 && strings.HasPrefix(main[len(main)-1], "(EvReq RLeave") {
+					main = append(main[:len(main)-1], s, main[len(main)-1])
+				} else {
+					main = append(main, s)
+				}
+				continue
+			}
+			switch x.K {
+			case "hb":
+				k := [2]int64{x.M, x.G}
+				if !seenHb[k] {
+					seenHb[k] = true
+					hbids = append(hbids, fmt.Sprintf("(%s, %s)", cf.Z(x.M), cf.Z(x.G)))
+				}
+			case "start":
+				started = append(started, x.P)
+				claims[x.P] = append(claims[x.P], fmt.Sprintf("(EvClaimStart %s %s)", cf.Z(x.P), cf.Z(x.Off)))
+			case "deliver":
+				consumed[x.P]++
+				claims[x.P] = append(claims[x.P], fmt.Sprintf("(EvDeliver %s %s)", cf.Z(x.P), cf.Z(x.Off)))
+			case "ret":
+				claims[x.P] = append(claims[x.P], fmt.Sprintf("(EvClaimReturn %s)", cf.Z(x.P)))
+			}
+		}
+		for _, v := range co.Joins {
+			joins = append(joins, coqJV(v))
+		}
+		for _, v := range co.Syncs {
+			syncs = append(syncs, coqSV(v, order))
+		}
+		for _, v := range co.Hbs {
+			hbs = append(hbs, coqHV(v))
+		}
+		for _, b := range call.Beh {
+			beh = append(beh, fmt.Sprintf("(%s, %s)", cf.Z(b.P), coqBeh(b)))
+		}
+		for _, p := range started {
+			cons = append(cons, fmt.Sprintf("(%s, %s)", cf.Z(p), cf.Nat(consumed[p])))
+			clm = append(clm, fmt.Sprintf("(%s, %s)", cf.Z(p), cf.List(claims[p])))
+		}
+		calls = append(calls, fmt.Sprintf("{| cc_trig := %s; cc_arg := %s; cc_handler := {| hd_setup_ok := %s; hd_cleanup_ok := %s; hd_beh := %s; hd_default := {| h_quota := None; h_mark := 0%%nat |} |}; "+
+			"cc_coords := %s; cc_joins := %s; cc_syncs := %s; cc_fetches := %s; cc_nocreate := %s; cc_hbs := %s; cc_commits := %s; cc_started := %s; cc_consumed := %s; cc_produce := %s; "+
+			"cc_fired := %s; cc_main := %s; cc_claims := %s; cc_hbids := %s |}",
+			coqTrig(call.Trigger), cf.Nat(call.TrigArg), cf.Bool(call.SetupOK), cf.Bool(call.CleanupOK), cf.List(beh),
+			coqBools(co.Coords), cf.List(joins), cf.List(syncs), coqBools(co.Fetches), cf.ZList(call.NoCreate), cf.List(hbs), coqBools(co.Commits),
+			cf.ZList(started), cf.List(cons), cf.ZList(call.Produce), cf.Bool(co.Fired), cf.List(main), cf.List(clm), cf.List(hbids)))
+	}
+	var tail []string
+	for _, x := range o.Log {
+		if x.Call == len(cs.Calls) {
+			if s, ok := coqMainEv(x, nil); ok {
+				tail = append(tail, s)
+			}
+		}
+	}
+	return fmt.Sprintf("{| k_cfg := {| c_retries := %d; c_initial := %s; c_hb_retries := %d; c_commit_attempts := %s |}; k_store := %s; k_log := %s; k_calls := %s; k_close := %s; k_leave := %s; k_tail := %s |}",
+		cs.Retries, cf.Z(initial), cs.HbRetries, cf.Nat(cs.Attempts), cf.List(store), cf.List(lg), cf.List(calls), cf.Bool(cs.Close), coqLV(cs.Leave), cf.List(tail))
+}
+
+func nontrivial(cs caseSpec, o obs) bool {
+	// at least one session was opened (Setup ran) and at least one request was answered
+	for _, x := range o.Log {
+		if x.K == "setup" {
+			return true
+		}
+	}
+	n := 0
+	for _, c := range o.Calls {
+		n += len(c.Joins) + len(c.Syncs)
+	}
+	return n >= 2
+}
 
 func main() {
 	out := flag.String("out", ".", "output directory")
 	seed := flag.Int64("seed", 1, "seed")
 	n := flag.Int("n", 300, "number of random cases")
+	nEnum := flag.Int("enum", 120, "number of enumerated coordinator scripts sampled (0 = all)")
+	workers := flag.Int("workers", 12, "cases run in parallel")
 	debug := flag.String("debug", "", "run one case given as JSON and dump the observation")
 	flag.Parse()
 	if *debug != "" {
@@ -26,7 +265,99 @@ func main() {
 		}
 		b, _ := json.Marshal(o.Calls)
 		fmt.Println(string(b), o.CloseHung)
+		fmt.Println(coqCase(cs, o))
+		if m := monitor(cs, o); m != nil {
+			fmt.Println("MONITOR", m.Signature, m.What)
+		}
 		return
 	}
-	_, _, _ = out, seed, n
+	r := rand.New(rand.NewSource(*seed))
+	var cases []caseSpec
+	var kinds []string
+	cases = append(cases, corpus()...)
+	for range cases {
+		kinds = append(kinds, "corpus")
+	}
+	scripts := enumScripts(4)
+	if *nEnum > 0 && *nEnum < len(scripts) {
+		r.Shuffle(len(scripts), func(i, j int) { scripts[i], scripts[j] = scripts[j], scripts[i] })
+		scripts = scripts[:*nEnum]
+	}
+	for _, sc := range scripts {
+		cases = append(cases, scriptCase(r, sc))
+		kinds = append(kinds, "script")
+	}
+	for i := 0; i < *n; i++ {
+		if i%4 == 3 {
+			cases = append(cases, genNoSkip(r))
+			kinds = append(kinds, "noskip")
+		} else {
+			cases = append(cases, genCase(r))
+			kinds = append(kinds, "random")
+		}
+	}
+	results := make([]obs, len(cases))
+	var wg sync.WaitGroup
+	sem := make(chan struct{}, *workers)
+	for i := range cases {
+		wg.Add(1)
+		sem <- struct{}{}
+		go func(i int) {
+			defer wg.Done()
+			defer func() { <-sem }()
+			results[i] = runCase(cases[i])
+		}(i)
+	}
+	wg.Wait()
+	w := &cf.Writer{Dir: *out, Prefix: "cases_c07", Imports: "From SV Require Import C07.Model C07.Corr.", CaseType: "ccase", MismatchFn: "mismatches_c07", ShardSize: 100}
+	for i, cs := range cases {
+		o := results[i]
+		m := monitor(cs, o)
+		if m != nil {
+			// timing-dependent behaviour counts only when it shows twice
+			o2 := runCase(cs)
+			if m2 := monitor(cs, o2); m2 == nil || m2.Signature != m.Signature {
+				m = nil
+				o = o2
+			}
+		}
+		w.Add(coqCase(cs, o), cf.Sidecar{Case: map[string]interface{}{"script": cs, "observed": slim(o)}, Kind: kinds[i] + ":" + trigKinds(cs), Nontrivial: nontrivial(cs, o), Monitor: m})
+	}
+	w.Close()
+}
+
+func trigKinds(cs caseSpec) string {
+	var t []string
+	for _, c := range cs.Calls {
+		t = append(t, c.Trigger)
+	}
+	return strings.Join(t, ",")
+}
+
+// slim: the observation without the per-record deliveries (kept readable in the sidecar)
+func slim(o obs) obs {
+	var l []ev
+	for _, x := range o.Log {
+		if x.K != "deliver" && !(x.K == "hb" && x.V == "ok") {
+			l = append(l, x)
+		}
+	}
+	return obs{Log: l, Calls: o.Calls, CloseHung: o.CloseHung}
+}
+
+// corpus: witnesses kept from development (run first)
+func corpus() []caseSpec {
+	p2 := []partSpec{{Topic: 0, P: 0, Oldest: 0, Newest: 6, Stored: 2}, {Topic: 0, P: 1, Oldest: 0, Newest: 3, Stored: -1}}
+	return []caseSpec{
+		// two sessions, prefix marked, rejoin after a fencing verdict with a fresh identity
+		{Retries: 1, HbRetries: 1, Attempts: 2, InitialOldest: true, Parts: p2, Close: true, Leave: "ok", Calls: []callSpec{
+			{Plan: []int64{0, 1}, SetupOK: true, CleanupOK: true, Beh: []behSpec{{P: 0, Quota: -1, Mark: 2}, {P: 1, Quota: 2, Mark: 1}}, Trigger: "hb-steady", Hbs: []string{"unknown"}},
+			{Plan: []int64{0, 1}, SetupOK: true, CleanupOK: true, Beh: []behSpec{{P: 0, Quota: -1, Mark: 1}}, Trigger: "hb-steady", Hbs: []string{"rebalance"}, Joins: []jv{{K: "unknown"}, {K: "ok", Leader: true}}}}},
+		// Setup fails: Cleanup still runs, Consume returns the Setup error
+		{Retries: 0, HbRetries: 0, Attempts: 1, Parts: p2, Close: true, Leave: "ok", Calls: []callSpec{
+			{Plan: []int64{0, 1}, SetupOK: false, CleanupOK: true, Trigger: "none"}}},
+		// committed offset out of range: the claim starts at the initial position
+		{Retries: 0, HbRetries: 0, Attempts: 1, InitialOldest: true, Parts: []partSpec{{Topic: 0, P: 0, Oldest: 3, Newest: 7, Stored: 1}, {Topic: 0, P: 1, Oldest: 0, Newest: 4, Stored: 9}}, Calls: []callSpec{
+			{Plan: []int64{0, 1}, SetupOK: true, CleanupOK: true, Beh: []behSpec{{P: 0, Quota: -1, Mark: 2}, {P: 1, Quota: -1, Mark: 2}}, Trigger: "ctx-steady"}}},
+	}
 }
